@@ -64,6 +64,16 @@ def run_group(cp, pathsname, filename, method, **kw):
             cp.collect_paths(pathsname=pathsname, filename=filename)
         elif method == "fast_forward_paths":
             cp.fast_forward_paths(pathsname=pathsname, filename=filename)
+        elif method == "next_paths" and kw.get("take") is not None:
+            # the consumer walks away after `take` lines and keeps the generator alive (an abandoned run)
+            gen = cp.next_paths(pathsname=pathsname, filename=filename, collect=kw.get("collect", True))
+            caller = [l[:] for l, _ in zip(gen, range(kw["take"]))]
+            cp.__dict__.setdefault("_verif_abandoned", []).append(gen)
+        elif method == "next_by_line" and kw.get("take") is not None:
+            gen = cp.next_by_line(pathsname=pathsname, filename=filename, collect=kw.get("collect", True),
+                                  if_all_agree=kw.get("if_all_agree", False), collect_when_not_matched=kw.get("cwnm", False))
+            caller = [l[:] for l, _ in zip(gen, range(kw["take"]))]
+            cp.__dict__.setdefault("_verif_abandoned", []).append(gen)
         elif method == "next_paths":
             caller = [l[:] for l in cp.next_paths(pathsname=pathsname, filename=filename, collect=kw.get("collect", True))]
         elif method == "collect_by_line":
